@@ -184,7 +184,17 @@ Inv_C01c(o) ==
 Inv_C01d(o) ==
   \A i, j \in DOMAIN o.wire :
     (i # j /\ o.wire[i].kind = "req" /\ o.wire[j].kind = "req") => o.wire[i].id # o.wire[j].id
-Inv_C01(o) == Inv_C01a(o) /\ Inv_C01b(o) /\ Inv_C01c(o) /\ Inv_C01d(o)
+(* a response that matches no live call (unknown id, duplicate, or its call already ended) is discarded   *)
+(* without disturbing the others: at a settle point everything the peer pushed has still been read and   *)
+(* every reply handed over has resolved its call                                                          *)
+Unmatched(o) == {p \in o.pushed : \A c \in Calls(o) : o.call[c].id # p.id
+                                     \/ o.call[c].st = "abandoned"
+                                     \/ (o.call[c].st = "resolved" /\ o.call[c].body # p.body)}
+Inv_C01e(o) ==
+  (AtPoint(o) /\ o.pt.alive /\ ~o.panic /\ Unmatched(o) # {}) =>
+     /\ o.pt.inq = 0
+     /\ \A c \in Calls(o) : (o.call[c].st = "started" /\ o.call[c].polled) => HandedFor(o, c) = {}
+Inv_C01(o) == Inv_C01a(o) /\ Inv_C01b(o) /\ Inv_C01c(o) /\ Inv_C01d(o) /\ Inv_C01e(o)
 
 (* ------------------------------------------------------------------ C02 *)
 (* at quiescence (everything owed by the transport granted, clock run out, only woken tasks *)
@@ -214,7 +224,7 @@ Excused(o, c) ==
   \/ HandedFor(o, c) # {}                    \* reply processed
   \/ o.now >= o.call[c].dl                   \* deadline expired (or expiring at this instant)
   \/ SendFailed(o, c)                        \* write failed
-  \/ o.faults # <<>> \/ o.eof # "none"       \* connection lost
+  \/ o.eof # "none"                         \* connection lost (a fatal transport fault ends the dispatch: next line)
   \/ o.disp \notin {"live", "ok"} \/ (o.dropped /\ o.disp = "live")
 OwesCancel(o, c) ==
   /\ o.call[c].st = "abandoned" /\ o.call[c].id >= 0
